@@ -23,3 +23,6 @@ __CPROVER_requires(__CPROVER_is_fresh(caches, sizeof(*caches)) && 1 <= caches->n
 __CPROVER_assigns(nv_other_slot, nv_thrown; tnum == nv_gs: caches->g)
 #define NV_WL_FIT_LOOP(vars) __CPROVER_assigns(vars, nv_other_slot, nv_thrown; tnum == nv_gs: caches->g) __CPROVER_loop_invariant(1)
 #define NV_COMMA ,
+/* wlearner_t::scale (NON-const): writes the learner (so that calling it from a const / chunk-task context is refuted) */
+static void nv_wl_scale_(struct nv_wl* self) { nv_touch(&self->m_tables); }
+#define nv_wl_scale(self, v) ((void)(v), nv_wl_scale_(self))
